@@ -619,7 +619,7 @@ class SymZ:
                 return a % (m + 1)
             if m > 0 and (m & (m - 1)) == 0:       # single bit
                 return ((a // m) % 2) * m
-        if a.lo == 0 and a.hi == 1 and b.lo == 0 and b.hi == 1:
+        if _bit(a) and _bit(b):
             return a * b
         raise Unsupported("general bitwise and")
 
@@ -629,7 +629,7 @@ class SymZ:
         o2 = SymZ.lift(o)
         if o2 is None:
             return NotImplemented
-        if self.lo == 0 and self.hi == 1 and o2.lo == 0 and o2.hi == 1:
+        if _bit(self) and _bit(o2):
             return (self + o2) % 2
         raise Unsupported("general bitwise xor")
 
@@ -639,7 +639,7 @@ class SymZ:
         o2 = SymZ.lift(o)
         if o2 is None:
             return NotImplemented
-        if self.lo == 0 and self.hi == 1 and o2.lo == 0 and o2.hi == 1:
+        if _bit(self) and _bit(o2):
             return self + o2 - self * o2
         raise Unsupported("general bitwise or")
 
@@ -711,6 +711,10 @@ class SymZ:
 
     def bit_length(self):
         raise Unsupported("bit_length of a symbolic integer")
+
+
+def _bit(x):
+    return x.lo is not None and x.hi is not None and 0 <= x.lo and x.hi <= 1
 
 
 def _concrete_small(k):
